@@ -20,6 +20,9 @@ CHECKS = {
              text="TLC derives the allowed orientation of each polarised cell from the row under its bottom edge with the generator-based algebra and checks it on every legalize/placeDetailed callback and return; the polarity table and opposite-row function of the code are compared exhaustively with the algebra.", ref="5/C04"),
  "C05": dict(cat="model_checking", tech="TLA+ HPWL through the orientation algebra + TLC trace validation of callback sequences",
              text="TLC recomputes the wirelength of every exposed state and checks monotonicity over the Detailed callbacks and against the legalized placement; run once without polarities (no known finding can match) and once with.", ref="5/C05"),
+ "C06": dict(cat="model_checking", tech="TLA+ GlobalLoop model (callback grammar, export reads last LB/UB, termination) + TLC trace validation of placeGlobal callbacks (InArea, Finite, blend, grammar)",
+             text="Design level: TLC checks the control flow of the global loop exhaustively for small step counts (grammar, the export uses the last lower and upper bound, termination). Code level (numeric content, exploration over inputs): every UpperBound exposure, every coordinate, the callback grammar and the returned blend of recorded runs are checked by TLC.",
+             ref="5/C06", engine="tlc-design; record + tlc-trace"),
  "C09": dict(cat="model_checking", tech="TLA+ orientation algebra + IncrHpwl spec: TLC-enumerated cases and update histories replayed into Circuit/IncrNetModel; TLC trace validation of random circuits",
              text="Exhaustive within bounds: every orientation x size x pin offset (the algebra is generated from two generators, independent of the code's case table) and every update history of the implementation-shaped IncrHpwl model (whose invariant value = from-scratch TLC checks) is replayed into the real objects; random circuits and histories are recorded and their wirelengths recomputed by TLC.",
              ref="5/C09", engine="tlc-edges + replay; record + tlc-trace"),
